@@ -613,6 +613,9 @@ func (store *KeyStore) getPublicKeyByFilename(filename string) (*keys.PublicKey,
 
 // GetClientIDEncryptionPublicKey return PublicKey by clientID from cache or load from main store
 func (store *KeyStore) GetClientIDEncryptionPublicKey(clientID []byte) (*keys.PublicKey, error) {
+	if !keystore.ValidateID(clientID) {
+		return nil, keystore.ErrInvalidClientID
+	}
 	fname := store.GetPublicKeyFilePath(
 		// use correct suffix for public keys
 		getPublicKeyFilename(
@@ -646,6 +649,9 @@ func (store *KeyStore) GetPeerPublicKey(id []byte) (*keys.PublicKey, error) {
 // GetPrivateKey reads encrypted client private key from fs, decrypts it with master key and clientID,
 // and returns plaintext private key, or reading/decryption error.
 func (store *KeyStore) GetPrivateKey(id []byte) (*keys.PrivateKey, error) {
+	if !keystore.ValidateID(id) {
+		return nil, keystore.ErrInvalidClientID
+	}
 	fname := getServerKeyFilename(id)
 
 	keyContext := keystore.NewClientIDKeyContext(keystore.PurposeStorageClientPrivateKey, id)
@@ -656,6 +662,9 @@ func (store *KeyStore) GetPrivateKey(id []byte) (*keys.PrivateKey, error) {
 // decrypts it with master key and clientID,
 // and returns plaintext private key, or reading/decryption error.
 func (store *KeyStore) GetServerDecryptionPrivateKey(id []byte) (*keys.PrivateKey, error) {
+	if !keystore.ValidateID(id) {
+		return nil, keystore.ErrInvalidClientID
+	}
 	fname := GetServerDecryptionKeyFilename(id)
 	keyContext := keystore.NewClientIDKeyContext(keystore.PurposeStorageClientPrivateKey, id)
 	return store.getPrivateKeyByFilename(fname, keyContext)
@@ -665,6 +674,9 @@ func (store *KeyStore) GetServerDecryptionPrivateKey(id []byte) (*keys.PrivateKe
 // decrypts them with master key and clientID, and returns plaintext private keys,
 // or reading/decryption error.
 func (store *KeyStore) GetServerDecryptionPrivateKeys(id []byte) ([]*keys.PrivateKey, error) {
+	if !keystore.ValidateID(id) {
+		return nil, keystore.ErrInvalidClientID
+	}
 	filenames, err := store.GetHistoricalPrivateKeyFilenames(GetServerDecryptionKeyFilename(id))
 	if err != nil {
 		return nil, err
@@ -1070,6 +1082,9 @@ func (store *KeyStore) Get(keyID string) ([]byte, bool) {
 
 // GetHMACSecretKey return key for hmac calculation according to id
 func (store *KeyStore) GetHMACSecretKey(id []byte) ([]byte, error) {
+	if !keystore.ValidateID(id) {
+		return nil, keystore.ErrInvalidClientID
+	}
 	filename := getHmacKeyFilename(id)
 	keyContext := keystore.NewClientIDKeyContext(keystore.PurposeSearchHMAC, id)
 
@@ -1280,6 +1295,9 @@ func (store *KeyStore) getLatestSymmetricKey(keyname string, keyContext keystore
 
 // GetClientIDSymmetricKeys return symmetric keys for specified client id
 func (store *KeyStore) GetClientIDSymmetricKeys(id []byte) ([][]byte, error) {
+	if !keystore.ValidateID(id) {
+		return nil, keystore.ErrInvalidClientID
+	}
 	keyName := getClientIDSymmetricKeyName(id)
 
 	keyContext := keystore.NewClientIDKeyContext(keystore.PurposeStorageClientSymmetricKey, id)
@@ -1288,6 +1306,9 @@ func (store *KeyStore) GetClientIDSymmetricKeys(id []byte) ([][]byte, error) {
 
 // GetClientIDSymmetricKey return latest symmetric key for encryption by specified client id
 func (store *KeyStore) GetClientIDSymmetricKey(id []byte) ([]byte, error) {
+	if !keystore.ValidateID(id) {
+		return nil, keystore.ErrInvalidClientID
+	}
 	keyName := getClientIDSymmetricKeyName(id)
 
 	keyContext := keystore.NewClientIDKeyContext(keystore.PurposeStorageClientSymmetricKey, id)
@@ -1306,16 +1327,25 @@ func (store *KeyStore) DestroyPoisonSymmetricKey() error {
 
 // DestroyClientIDEncryptionKeyPair destroy server encryption key pair
 func (store *KeyStore) DestroyClientIDEncryptionKeyPair(clientID []byte) error {
+	if !keystore.ValidateID(clientID) {
+		return keystore.ErrInvalidClientID
+	}
 	return store.destroyKeyWithFilename(GetServerDecryptionKeyFilename(clientID))
 }
 
 // DestroyClientIDSymmetricKey destroy private poison key
 func (store *KeyStore) DestroyClientIDSymmetricKey(clientID []byte) error {
+	if !keystore.ValidateID(clientID) {
+		return keystore.ErrInvalidClientID
+	}
 	return store.destroySymmetricKeyWithFilename(GetServerDecryptionKeyFilename(clientID))
 }
 
 // DestroyHmacSecretKey destroy hmac secter key
 func (store *KeyStore) DestroyHmacSecretKey(clientID []byte) error {
+	if !keystore.ValidateID(clientID) {
+		return keystore.ErrInvalidClientID
+	}
 	return store.destroyKeyWithFilename(getHmacKeyFilename(clientID))
 }
 
@@ -1336,6 +1366,9 @@ func (store *KeyStore) DestroyRotatedPoisonSymmetricKey(index int) error {
 
 // DestroyRotatedClientIDEncryptionKeyPair destroy created rotated storage key pair
 func (store *KeyStore) DestroyRotatedClientIDEncryptionKeyPair(clientID []byte, index int) error {
+	if !keystore.ValidateID(clientID) {
+		return keystore.ErrInvalidClientID
+	}
 	fileName := GetServerDecryptionKeyFilename(clientID)
 
 	if err := store.destroyRotatedKeyByIndex(store.GetPrivateKeyFilePath(fileName), index); err != nil {
@@ -1348,12 +1381,18 @@ func (store *KeyStore) DestroyRotatedClientIDEncryptionKeyPair(clientID []byte, 
 
 // DestroyRotatedClientIDSymmetricKey destroy created rotated symmetric key
 func (store *KeyStore) DestroyRotatedClientIDSymmetricKey(clientID []byte, index int) error {
+	if !keystore.ValidateID(clientID) {
+		return keystore.ErrInvalidClientID
+	}
 	keyName := getClientIDSymmetricKeyName(clientID)
 	return store.destroyRotatedKeyByIndex(store.GetPrivateKeyFilePath(keyName), index)
 }
 
 // DestroyRotatedHmacSecretKey destroy created rotated hmac symmetric key
 func (store *KeyStore) DestroyRotatedHmacSecretKey(clientID []byte, index int) error {
+	if !keystore.ValidateID(clientID) {
+		return keystore.ErrInvalidClientID
+	}
 	keyName := getHmacKeyFilename(clientID)
 	return store.destroyRotatedKeyByIndex(store.GetPrivateKeyFilePath(keyName), index)
 }
